@@ -403,6 +403,15 @@ def reProp (l : ReLine) (impl : String) : String :=
     | none => "fail:answer"
     | some r => reJudge l r
 
+/-- classes of DECODER OUTPUT (evaluated on what the MODEL decodes from the bytes of the line): the three classes
+`C01_e2e_reencode` excludes -/
+def reKf (l : ReLine) : String :=
+  let (fits, _) := decodeChain l.o l.bytes
+  let ids := (if fits.any (fun f => kfUndersized f.msgs) then ["KF-C01-undersized"] else []) ++
+    (if fits.any (fun f => kfPieces f.msgs) then ["KF-C01-strpieces"] else []) ++
+    (if fits.any (fun f => kfF64Dev l.c.vo {} f.msgs) then ["KF-C01-f64dev"] else [])
+  if ids.isEmpty then "-" else ",".intercalate ids
+
 def hReDec : Handler := fun r =>
   match parseReLine r.args with
   | none => if r.mode == .model then "bad-op" else if r.mode == .kf then "-" else "n/a"
@@ -411,6 +420,6 @@ def hReDec : Handler := fun r =>
     | .model => reAnswer l
     | .spec => "n/a"
     | .prop => reProp l r.impl
-    | .kf => "-"
+    | .kf => reKf l
 
 end Drv.E2E
